@@ -78,8 +78,8 @@ def run(ctx):
         PARSE = 'amq_protocol::frame::parse_frame(buf)'
         got = sorted((tuple(x.cond_strs()), x.value_str()) for x in rows)
         want = sorted([((PARSE + ' ~ Ok(_)', 'is_empty(%s.Ok.0.0)' % PARSE), 'Ok(%s.Ok.0.1)' % PARSE),
-                       ((PARSE + ' ~ Ok(_)', '!is_empty(%s.Ok.0.0)' % PARSE), 'errors::MalformedFrameSnafu::fail(errors::MalformedFrameSnafu)'),
-                       ((PARSE + ' ~ Err(_)',), 'errors::MalformedFrameSnafu::fail(errors::MalformedFrameSnafu)')])
+                       ((PARSE + ' ~ Ok(_)', '!is_empty(%s.Ok.0.0)' % PARSE), 'Err(errors::Error::MalformedFrame)'),
+                       ((PARSE + ' ~ Err(_)',), 'Err(errors::Error::MalformedFrame)')])
         for i, (g, w) in enumerate(zip(got, want)):
             r.eq('row%d' % i, g, w, site)
         r.check('rowcount', len(got) == 3, site, built=len(got))
@@ -101,14 +101,14 @@ def run(ctx):
             n += 1
             tag = 'known-size' if x.conds[0][1] == 'Some(_)' else 'unknown-size'
             if pat == 'Ok(0)':
-                r.eq('%s:eof' % tag, (x.value_str(), x.done), ('errors::UnexpectedSocketCloseSnafu::fail(errors::UnexpectedSocketCloseSnafu)', 'return'), site)
+                r.eq('%s:eof' % tag, (x.value_str(), x.done), ('Err(errors::Error::UnexpectedSocketClose)', 'return'), site)
             elif pat == 'Ok(_)':
                 r.check('%s:progress' % tag, x.done == 'iterate' and '$m0 += %s.Ok.0' % call in x.effects, site, built=x.effects[-3:], why='bytes read only add to the counter; decoding restarts from the buffer')
             elif pat == 'Err(_)' and kind and kind[0][1] == 'std::io::ErrorKind::WouldBlock' and x.conds[-1] == kind[0]:
                 r.eq('%s:would-block' % tag, (x.value_str(), x.done), ('Ok($m0)', 'return'), site, why='would-block leaves the buffer untouched and reports the bytes read')
             elif pat == 'Err(_)' and kind and kind[0][1] == 'not std::io::ErrorKind::WouldBlock' and x.conds[-1] == kind[0]:
                 r.eq('%s:io-error' % tag, (x.value_str(), x.done),
-                     ('<std::result::Result<T, E> as snafu::ResultExt<T, E>>::context(Err(%s.Err.0), errors::IoErrorReadingSocketSnafu)' % call, 'return'), site)
+                     ('std::result::Result::map_err(Err(%s.Err.0), |$c0| errors::Error::IoErrorReadingSocket{source: $c0})' % call, 'return'), site)
             else:
                 r.bad('%s:unknown-outcome:%s' % (tag, pat), site, built=x.row())
         r.check('outcome-rows', n == 8, site, built=n, expected=8)
